@@ -512,6 +512,313 @@ void h_sg(void)
 """)
 
 
+# ---- ScintillationGenerator::ScintillationGenerator --------------------------
+SGC_RULES = BASE_RULES + [
+    Rule(r"if \(shared_\.scintillation_by_particle\(\)\)", "if (shared->by_particle)", 1, note="params query -> flag"),
+    Rule(r"CELER_EXPECT\(shared_\);", "", (0, 1), note="params validity (host-built) not modelled"),
+    Rule(r"CELER_EXPECT\(dist_\);", "CELER_EXPECT(dist_->num_photons > 0 && dist_->step_length > 0 && dist_->material != INVALID_ID);", (0, 1), note="GeneratorDistributionData::operator bool (text checked)"),
+    Rule(r"auto const& (\w+) = dist_->points\[SP_(\w+)\];", r"GeneratorStepData const \1 = dist_->points[SP_\2];", "+", note="const reference -> const copy"),
+    Rule(r"= (\w+)\.pos - (\w+)\.pos;", r"= SUB3(\1.pos, \2.pos);", "+", note="Array operator-"),
+    MEMBERS_SG,
+]
+
+
+def sg_ctor_text(ctx):
+    pc = ctx.span(SG, r"^CELER_FUNCTION\s+ScintillationGenerator::ScintillationGenerator\(", r"\n\{\n.*?\n\}", [], name="ScintillationGenerator::ScintillationGenerator")
+    k = pc.body.index("\n{\n")
+    head, body = pc.body[:k], pc.body[k + 3: -1]
+    lines = []
+    for mem, expr in init_list(head):
+        e = expr.strip()
+        if mem == "dist_" and e == "dist":
+            lines.append("    self->dist_ = dist;")
+        elif mem == "shared_" and e == "shared":
+            lines.append("    /* shared_(shared): params reference */")
+        elif mem in ("sample_cost_", "sample_phi_"):
+            lines.append("    self->%s = URD_make(%s);" % (mem, e.replace("constants::pi", "PI")))
+        elif mem == "is_neutral_":
+            lines.append("    self->is_neutral_ = %s;" % e.replace("dist_.", "self->dist_->").replace("zero_quantity()", "0"))
+        else:
+            raise ExtractionDrift("ScintillationGenerator initialiser %s(%s) not understood" % (mem, expr))
+    from vkit.extract import lower_casts, GENERIC
+    body = re.sub(r"//[^\n]*", "", body)
+    body = lower_casts(body, ctx.report, "ScintillationGenerator::ScintillationGenerator")
+    for r in GENERIC + SGC_RULES:
+        body = r.apply(body, ctx.report, "ScintillationGenerator::ScintillationGenerator")
+    return "\n".join(lines) + "\n" + body
+
+
+def build_scint_ctor(ctx):
+    check_urd_ctor(ctx)
+    body = sg_ctor_text(ctx)
+    return (HDR + MODEL + CG_MODEL + CGC_MODEL + SG_MODEL + """
+typedef struct { bool by_particle; } ScintShared;
+#define PRE (dist->points[SP_pre])
+#define POST (dist->points[SP_post])
+void SG_ctor(ScintillationGenerator* self, ScintShared const* shared, GeneratorDistributionData const* dist)
+__CPROVER_requires(__CPROVER_rw_ok(self, sizeof(*self)) && __CPROVER_r_ok(shared, sizeof(*shared)) && __CPROVER_r_ok(dist, sizeof(*dist)) && !shared->by_particle)
+__CPROVER_requires(dist->num_photons > 0 && dist->step_length > 0 && FINV(dist->step_length) && dist->material != INVALID_ID && FINV(dist->time) && FINV(dist->charge))
+/* speeds as the offload helper stores them: pre-step 0 < beta <= 1, post-step 0 <= beta <= 1 (a stopped parent) */
+__CPROVER_requires(PRE.speed > 0 && PRE.speed <= 1 && POST.speed >= 0 && POST.speed <= 1)
+__CPROVER_assigns(__CPROVER_object_whole(self))
+__CPROVER_ensures(self->dist_ == dist && self->is_neutral_ == (dist->charge == 0))
+__CPROVER_ensures(self->sample_cost_.a_ == -1 && self->sample_cost_.delta_ == 2 && self->sample_phi_.a_ == 0 && self->sample_phi_.delta_ > 6.28 && self->sample_phi_.delta_ < 6.29)
+__CPROVER_ensures(EQV(self->delta_pos_.v[0], POST.pos.v[0] - PRE.pos.v[0]) && EQV(self->delta_pos_.v[1], POST.pos.v[1] - PRE.pos.v[1]) && EQV(self->delta_pos_.v[2], POST.pos.v[2] - PRE.pos.v[2]))
+__CPROVER_ensures(self->delta_speed_ == POST.speed - PRE.speed)
+/* ... exactly the invariant ScintillationGenerator::operator() is verified under (c20_scint_gen_call) */
+__CPROVER_ensures(""" + SG_INV + """)
+{""" + body + """}
+void h_sgc(void)
+{
+    ScintillationGenerator g; ScintShared sh; GeneratorDistributionData d;
+    SG_ctor(&g, &sh, &d);
+    VERIF_CANARY();
+}
+""")
+
+
+# ---- CerenkovDndxCalculator::operator() --------------------------------------
+DN_MODEL = """
+typedef struct { GridExt grid; real_type zsq_; } DndxCalculator;       /* refractive-index grid extents; charge squared */
+real_type __CPROVER_uninterpreted_n(real_type);
+real_type __CPROVER_uninterpreted_integral(real_type);
+real_type __CPROVER_uninterpreted_ninv(real_type);
+real_type g_n0;      /* ghost: first table value n(E_front) */
+static real_type RI(DndxCalculator const* self, real_type energy) { real_type r = __CPROVER_uninterpreted_n(energy); __CPROVER_assume(r >= 1 && FINV(r)); return r; }
+static real_type RI_at0(DndxCalculator const* self) { __CPROVER_assume(g_n0 >= 1 && FINV(g_n0)); return g_n0; }
+#define INTEGRAL(e) __CPROVER_uninterpreted_integral(e)
+#define RI_INV(x) __CPROVER_uninterpreted_ninv(x)
+#define DNDX_CONST 1.0     /* alpha_fine_structure / (hbar_planck * c_light): a positive constant */
+"""
+ALGO = "src/corecel/math/Algorithms.hh"
+DN_RULES = BASE_RULES + [
+    Rule(r"calc_refractive_index_\.grid\(\)\.(front|back)\(\)", r"self->grid.\1", "+", note="grid extents"),
+    Rule(r"calc_refractive_index_\[0\]", "RI_at0(self)", (0, 1), note="first table value"),
+    Rule(r"calc_refractive_index_\.make_inverse\(\)\(", "RI_INV(", (0, 1), note="inverse table lookup -> uninterpreted"),
+    Rule(r"calc_refractive_index_\(", "RI(self, ", "+", note="GenericCalculator call -> function of the energy"),
+    Rule(r"calc_integral_\(", "INTEGRAL(", "*", note="angle-integral table lookup -> uninterpreted"),
+    Rule(r"\(constants::alpha_fine_structure\s*/ \(constants::hbar_planck \* constants::c_light\)\)", "DNDX_CONST", (0, 1), note="positive physical constant"),
+    Rule(r"real_type inv_beta = 1 / beta;", "real_type inv_beta = DIV(1, beta);", (0, 1), note="quotient -> uninterpreted with the sign lemma"),
+    MulToUF("MUL", note="products -> uninterpreted with assumed IEEE sign lemmas"),
+    Rule(r"(?<![\w.>])(zsq_)\b", r"self->\1", "*", note="data member"),
+]
+
+
+def build_dndx(ctx):
+    cn = ctx.func(ALGO, r"CELER_CONSTEXPR_FUNCTION T clamp_to_nonneg\(T v\) noexcept", [], name="celeritas::clamp_to_nonneg")
+    pc = ctx.func(DNDX, r"^CerenkovDndxCalculator::operator\(\)\(units::LightSpeed beta\)", DN_RULES, name="CerenkovDndxCalculator::operator()")
+    return (HDR + MODEL + CG_MODEL.split("real_type __CPROVER_uninterpreted_n")[0] + DN_MODEL + "static real_type clamp_to_nonneg(real_type v)\n{" + cn.body + "}\n" + """
+real_type DNDX_call(DndxCalculator const* self, real_type beta)
+__CPROVER_requires(__CPROVER_r_ok(self, sizeof(*self)) && beta > 0 && beta <= 1 && FINV(self->grid.front) && FINV(self->grid.back) && self->zsq_ > 0)
+__CPROVER_assigns()
+/* below the Cerenkov threshold (1/beta above the largest refractive index, n at the top of the table: n increases with energy) NO photons are requested */
+__CPROVER_ensures(__CPROVER_uninterpreted_div(1, beta) > __CPROVER_uninterpreted_n(self->grid.back) ==> __CPROVER_return_value == 0)
+/* and the mean number per length is never negative */
+__CPROVER_ensures(!(__CPROVER_return_value < 0))
+{""" + pc.body + """}
+void h_dn(void)
+{
+    DndxCalculator c; real_type b;
+    DNDX_call(&c, b);
+    VERIF_CANARY();
+}
+""")
+
+
+# ---- offload helpers -----------------------------------------------------------
+OFF_MODEL = """
+typedef struct { real_type speed; Real3 pos; real_type time; size_type material; } OffloadPreStepData;
+typedef struct { real_type charge, speed; } ParticleView;     /* ParticleTrackView::charge() / speed() */
+typedef struct { real_type step_length; } SimView;            /* SimTrackView::step_length() */
+static GeneratorDistributionData const EMPTY_DIST = {0, 0, 0, 0, INVALID_ID, {{0, {{0, 0, 0}}}, {0, {{0, 0, 0}}}}};      /* default member initialisers */
+/* PoissonDistribution(lambda)(rng) / NormalDistribution(mean, sigma)(rng): any count / any finite value (supports: C15) */
+size_type POISSON_sample(real_type lambda, Engine* rng) __CPROVER_assigns(g_draws) __CPROVER_ensures(1);
+real_type NORMAL2_sample(real_type mean, real_type sigma, Engine* rng) __CPROVER_assigns(g_draws) __CPROVER_ensures(FINV(__CPROVER_return_value) && __CPROVER_return_value <= 4e18);
+#define SAME3(a, b) (EQV((a).v[0], (b).v[0]) && EQV((a).v[1], (b).v[1]) && EQV((a).v[2], (b).v[2]))
+/* what a filled distribution must carry: the parent's pre-step time, the step length, charge and material, the pre-step point from the cached pre-step data and the post-step point */
+#define FILLED(out, self) ((out)->time == (self)->pre_step_->time && (out)->step_length == (self)->step_length_ && (out)->charge == (self)->charge_ && (out)->material == (self)->pre_step_->material \\
+    && (out)->points[SP_pre].speed == (self)->pre_step_->speed && SAME3((out)->points[SP_pre].pos, (self)->pre_step_->pos) \\
+    && (out)->points[SP_post].speed == (self)->post_step_.speed && SAME3((out)->points[SP_post].pos, (self)->post_step_.pos))
+#define OFF_INV(self) (__CPROVER_r_ok(self, sizeof(*self)) && __CPROVER_r_ok((self)->pre_step_, sizeof(OffloadPreStepData)) && (self)->step_length_ > 0 && FINV((self)->step_length_) && FINV((self)->pre_step_->time) \\
+    && (self)->pre_step_->material != INVALID_ID && (self)->pre_step_->speed > 0 && (self)->pre_step_->speed <= 1 && (self)->post_step_.speed >= 0 && (self)->post_step_.speed <= 1 && FINV((self)->charge_))
+"""
+OFF_FILL_RULES = BASE_RULES + [
+    Rule(r"optical::GeneratorDistributionData (\w+);", r"GeneratorDistributionData \1 = EMPTY_DIST;", 1, note="default member initialisers"),
+    Rule(r"return \{\};", "{ *out = EMPTY_DIST; return; }", (0, 1), note="empty result -> written through the result pointer"),
+    Rule(r"return (data|result);", r"*out = \1; return;", 1, note="returned by value -> written through the result pointer"),
+    Rule(r"PoissonDistribution<real_type>\(([^()]*)\)\(rng\)", r"POISSON_sample(\1, rng)", "+", note="distribution temporary -> stub (any count)"),
+    Rule(r"\.points\[StepPoint::(pre|post)\]", r".points[SP_\1]", "+", note="EnumArray[StepPoint]"),
+    Rule(r"pre_step_\.", "pre_step_->", "*", note="reference member -> pointer"),
+]
+CO_MODEL = """
+typedef struct { real_type charge_, step_length_; OffloadPreStepData const* pre_step_; GeneratorStepData post_step_; real_type num_photons_per_len_; } CerenkovOffload;
+"""
+CO_RULES = OFF_FILL_RULES + [
+    MulToUF("MUL", note="products -> uninterpreted"),
+    Rule(r"(?<![\w.>])(charge_|step_length_|pre_step_|post_step_|num_photons_per_len_)\b", r"self->\1", "+", note="data members -> self->"),
+]
+
+
+def offload_ctor_lines(ctx, path, start, name, allowed):
+    pc = ctx.span(path, start, r"\n\{\n.*?\n\}", [], name=name)
+    k = pc.body.index("\n{\n")
+    head, body = pc.body[:k], pc.body[k + 3: -1]
+    lines = []
+    for mem, expr in init_list(head):
+        e = re.sub(r"\s+", " ", expr.strip())
+        if (mem, e) not in allowed:
+            raise ExtractionDrift("%s initialiser %s(%s) not understood" % (name, mem, expr))
+        lines.append("    " + allowed[(mem, e)])
+    body = re.sub(r"//[^\n]*", "", body)
+    return "\n".join(lines) + "\n", body
+
+
+OFF_INIT = {
+    ("charge_", "particle.charge()"): "self->charge_ = particle->charge;",
+    ("step_length_", "sim.step_length()"): "self->step_length_ = sim->step_length;",
+    ("pre_step_", "step_data"): "self->pre_step_ = step_data;",
+    ("post_step_", "{particle.speed(), pos}"): "self->post_step_.speed = particle->speed; self->post_step_.pos = *pos;",
+    ("shared_", "shared"): "self->shared_ = shared;",
+}
+CO_CTOR_RULES = BASE_RULES + [
+    Rule(r"CELER_EXPECT\(pre_step_\);", "CELER_EXPECT(pre_step_->material != INVALID_ID && pre_step_->speed > 0);", 1, note="OffloadPreStepData::operator bool (text checked)"),
+    Rule(r"units::LightSpeed beta\(", "real_type const beta = (", 1, note="Quantity construction -> value"),
+    Rule(r"real_type\{0\.5\}", "0.5", "*", note="braced literal"),
+    Rule(r"optical::CerenkovDndxCalculator calculate_dndx\(mat, shared, charge_\);", "real_type const calc_dndx_charge = charge_;", 1, note="calculator object -> its charge argument"),
+    Rule(r"\bcalculate_dndx\(", "DNDX_call(calc_dndx_charge, ", "+", note="calculator call -> contract"),
+    Rule(r"pre_step_\.", "pre_step_->", "*", note="reference member -> pointer"),
+    Rule(r"(?<![\w.>])(charge_|step_length_|pre_step_|post_step_|num_photons_per_len_)\b", r"self->\1", "+", note="data members -> self->"),
+]
+
+
+def check_prestep_bool(ctx):
+    bo = ctx.func(O + "OffloadData.hh", r"struct OffloadPreStepData\b.*?explicit CELER_FUNCTION operator bool\(\) const", [], name="OffloadPreStepData::operator bool")
+    if re.sub(r"\s+", " ", bo.body).strip() != "return material && speed > zero_quantity();":
+        raise ExtractionDrift("OffloadPreStepData::operator bool changed: " + bo.body)
+
+
+def lower(ctx, body, rules, where):
+    from vkit.extract import lower_casts, GENERIC
+    body = lower_casts(body, ctx.report, where)
+    for r in GENERIC + rules:
+        body = r.apply(body, ctx.report, where)
+    return body
+
+
+def build_cerenkov_offload(ctx):
+    check_prestep_bool(ctx)
+    init, body = offload_ctor_lines(ctx, CO, r"^CELER_FUNCTION\s+CerenkovOffload::CerenkovOffload\(", "CerenkovOffload::CerenkovOffload", OFF_INIT)
+    body = lower(ctx, body, CO_CTOR_RULES, "CerenkovOffload::CerenkovOffload")
+    pc = ctx.func(CO, r"^CerenkovOffload::operator\(\)\(Generator& rng\)", CO_RULES, name="CerenkovOffload::operator()")
+    return (HDR + MODEL + CG_MODEL + CGC_MODEL + OFF_MODEL + CO_MODEL + """
+static void CO_ctor(CerenkovOffload* self, ParticleView const* particle, SimView const* sim, Real3 const* pos, OffloadPreStepData const* step_data)
+{""" + init + body + """}
+static void CO_call(CerenkovOffload const* self, Engine* rng, GeneratorDistributionData* out)
+{""" + pc.body + """}
+/* construct and sample: what CerenkovOffloadExecutor does with one track */
+void CO_offload(ParticleView const* particle, SimView const* sim, Real3 const* pos, OffloadPreStepData const* step_data, Engine* rng, GeneratorDistributionData* out)
+__CPROVER_requires(__CPROVER_r_ok(particle, sizeof(*particle)) && __CPROVER_r_ok(sim, sizeof(*sim)) && __CPROVER_r_ok(pos, sizeof(*pos)) && __CPROVER_r_ok(step_data, sizeof(*step_data)) && __CPROVER_w_ok(out, sizeof(*out)))
+/* a charged particle that moved, with cached pre-step data; speeds are fractions of c */
+__CPROVER_requires(particle->charge != 0 && FINV(particle->charge) && sim->step_length > 0 && FINV(sim->step_length) && step_data->material != INVALID_ID && FINV(step_data->time)
+                   && step_data->speed >= 1e-300 && step_data->speed <= 1 && particle->speed >= 0 && particle->speed <= 1)      /* (a speed that is not a denormal number: half of it is still positive) */
+__CPROVER_assigns(g_draws, __CPROVER_object_whole(out))
+/* the mean photon density is dN/dx at the MEAN of the pre- and post-step speeds; when it is zero (below threshold) NO photons are requested and nothing is sampled */
+__CPROVER_ensures(__CPROVER_uninterpreted_dndx(particle->charge, 0.5 * (step_data->speed + particle->speed)) == 0 ==> (out->num_photons == 0 && g_draws == __CPROVER_old(g_draws)))
+/* a non-empty request carries the parent's step: pre-step time, step length, charge, material, the cached pre-step point and the current (post-step) point */
+__CPROVER_ensures(out->num_photons > 0 ==> (out->time == step_data->time && out->step_length == sim->step_length && out->charge == particle->charge && out->material == step_data->material
+    && out->points[SP_pre].speed == step_data->speed && SAME3(out->points[SP_pre].pos, step_data->pos) && out->points[SP_post].speed == particle->speed && SAME3(out->points[SP_post].pos, *pos)))
+{
+    CerenkovOffload off;
+    CO_ctor(&off, particle, sim, pos, step_data);
+    CO_call(&off, rng, out);
+}
+void h_co(void)
+{
+    ParticleView p; SimView s; Real3 pos; OffloadPreStepData pre; Engine* e; GeneratorDistributionData out;
+    CO_offload(&p, &s, &pos, &pre, e, &out);
+    VERIF_CANARY();
+}
+""")
+
+
+SO_MODEL = """
+typedef struct { real_type yield_per_energy; size_type yield_pdf_size, components_size; } MatScintSpectrumRecord;
+typedef struct { bool by_particle; MatScintSpectrumRecord const* materials; size_type n_materials; real_type const* resolution_scale; size_type n_resolution_scale; } ScintShared;
+typedef struct { real_type charge_, step_length_; OffloadPreStepData const* pre_step_; GeneratorStepData post_step_; ScintShared const* shared_; real_type mean_num_photons_; } ScintillationOffload;
+#define POISSON_THRESHOLD 10
+static size_type COLL_index(size_type i, size_type n, char const* what) { __CPROVER_assert(i < n, "collection index in range"); return i; }
+"""
+SO_COMMON = [
+    Rule(r"shared_\.scintillation_by_particle\(\)", "shared_->by_particle", "*", note="params query -> flag"),
+    Rule(r"shared_\.materials\.size\(\)", "shared_->n_materials", "*", note="Collection::size"),
+    Rule(r"shared_\.materials\[([^\[\]]*)\]", r"shared_->materials[COLL_index(\1, shared_->n_materials, 0)]", "*", note="Collection[] with its range check"),
+    Rule(r"shared_\.resolution_scale\[([^\[\]]*)\]", r"shared_->resolution_scale[COLL_index(\1, shared_->n_resolution_scale, 0)]", "*", note="Collection[] with its range check"),
+    Rule(r"CELER_EXPECT\(shared_\);", "", (0, 1), note="params validity (host-built) not modelled"),
+    Rule(r"poisson_threshold\(\)", "POISSON_THRESHOLD", "*", note="constexpr threshold (value checked)"),
+]
+SO_CTOR_RULES = BASE_RULES + SO_COMMON + [
+    Rule(r"CELER_EXPECT\(pre_step_\);", "CELER_EXPECT(pre_step_->material != INVALID_ID && pre_step_->speed > 0);", 1, note="OffloadPreStepData::operator bool (text checked)"),
+    Rule(r"auto const& material = ", "MatScintSpectrumRecord const material = ", 1, note="const reference -> const copy"),
+    Rule(r"if \(material\)", "if (material.yield_per_energy > 0 && material.yield_pdf_size != 0 && material.yield_pdf_size == material.components_size)", 1, note="MatScintSpectrumRecord::operator bool (text checked)"),
+    Rule(r"pre_step_\.", "pre_step_->", "*", note="reference member -> pointer"),
+    MulToUF("MUL", note="products -> uninterpreted with assumed IEEE sign lemmas"),
+    Rule(r"(?<![\w.>])(charge_|step_length_|pre_step_|post_step_|shared_|mean_num_photons_)\b", r"self->\1", "+", note="data members -> self->"),
+]
+SO_RULES = OFF_FILL_RULES + SO_COMMON + [
+    Rule(r"NormalDistribution<real_type>\(([^()]*), ([^()]*)\)\(rng\)", r"NORMAL2_sample(\1, \2, rng)", (0, 1), note="distribution temporary -> stub (any finite value)"),
+    Rule(r"real_type\{0\.5\}", "0.5", "*", note="braced literal"),
+    MulToUF("MUL", note="products -> uninterpreted"),
+    Rule(r"(?<![\w.>])(charge_|step_length_|pre_step_|post_step_|shared_|mean_num_photons_)\b", r"self->\1", "+", note="data members -> self->"),
+]
+
+
+def build_scint_offload(ctx):
+    check_prestep_bool(ctx)
+    text = ctx.read(SO)
+    if not re.search(r"poisson_threshold\(\)\s*\{\s*return 10;\s*\}", text):
+        raise ExtractionDrift("ScintillationOffload::poisson_threshold() is no longer 10")
+    mb = ctx.func(O + "ScintillationData.hh", r"struct MatScintSpectrumRecord\b.*?explicit CELER_FUNCTION operator bool\(\) const", [], name="MatScintSpectrumRecord::operator bool")
+    if re.sub(r"\s+", " ", mb.body).strip() != "return yield_per_energy > 0 && !yield_pdf.empty() && yield_pdf.size() == components.size();":
+        raise ExtractionDrift("MatScintSpectrumRecord::operator bool changed")
+    cn = ctx.func(ALGO, r"CELER_CONSTEXPR_FUNCTION T clamp_to_nonneg\(T v\) noexcept", [], name="celeritas::clamp_to_nonneg")
+    init, body = offload_ctor_lines(ctx, SO, r"^CELER_FUNCTION ScintillationOffload::ScintillationOffload\(", "ScintillationOffload::ScintillationOffload", OFF_INIT)
+    body = lower(ctx, body, SO_CTOR_RULES, "ScintillationOffload::ScintillationOffload")
+    pc = ctx.func(SO, r"^ScintillationOffload::operator\(\)\(Generator& rng\)", SO_RULES, name="ScintillationOffload::operator()")
+    return (HDR + MODEL + OFF_MODEL + SO_MODEL + "static real_type clamp_to_nonneg(real_type v)\n{" + cn.body + "}\n" + """
+static void SO_ctor(ScintillationOffload* self, ParticleView const* particle, SimView const* sim, Real3 const* pos, real_type energy_deposition, ScintShared const* shared, OffloadPreStepData const* step_data)
+{    self->mean_num_photons_ = 0;    /* default member initialiser */
+""" + init + body + """}
+static void SO_call(ScintillationOffload const* self, Engine* rng, GeneratorDistributionData* out)
+{""" + pc.body + """}
+void SO_offload(ParticleView const* particle, SimView const* sim, Real3 const* pos, real_type energy_deposition, ScintShared const* shared, OffloadPreStepData const* step_data, Engine* rng, GeneratorDistributionData* out)
+__CPROVER_requires(__CPROVER_r_ok(particle, sizeof(*particle)) && __CPROVER_r_ok(sim, sizeof(*sim)) && __CPROVER_r_ok(pos, sizeof(*pos)) && __CPROVER_r_ok(step_data, sizeof(*step_data)) && __CPROVER_w_ok(out, sizeof(*out)))
+__CPROVER_requires(__CPROVER_r_ok(shared, sizeof(*shared)) && !shared->by_particle && shared->n_materials >= 1 && shared->n_materials <= 64 && shared->n_resolution_scale == shared->n_materials
+                   && __CPROVER_r_ok(shared->materials, shared->n_materials * sizeof(MatScintSpectrumRecord)) && __CPROVER_r_ok(shared->resolution_scale, shared->n_materials * sizeof(real_type)))
+__CPROVER_requires(FINV(particle->charge) && sim->step_length > 0 && FINV(sim->step_length) && step_data->material < shared->n_materials && FINV(step_data->time)
+                   && step_data->speed > 0 && step_data->speed <= 1 && particle->speed >= 0 && particle->speed <= 1 && FINV(energy_deposition) && energy_deposition >= 0)
+__CPROVER_assigns(g_draws, __CPROVER_object_whole(out))
+/* no energy deposited, or a material without scintillation data: NO photons requested, nothing sampled */
+__CPROVER_ensures((energy_deposition == 0 || !(shared->materials[step_data->material].yield_per_energy > 0)) ==> (out->num_photons == 0 && g_draws == __CPROVER_old(g_draws)))
+/* a non-empty request carries the parent's step */
+__CPROVER_ensures(out->num_photons > 0 ==> (out->time == step_data->time && out->step_length == sim->step_length && out->charge == particle->charge && out->material == step_data->material
+    && out->points[SP_pre].speed == step_data->speed && SAME3(out->points[SP_pre].pos, step_data->pos) && out->points[SP_post].speed == particle->speed && SAME3(out->points[SP_post].pos, *pos)))
+{
+    ScintillationOffload off;
+    SO_ctor(&off, particle, sim, pos, energy_deposition, shared, step_data);
+    SO_call(&off, rng, out);
+}
+void h_so(void)
+{
+    ParticleView p; SimView s; Real3 pos; OffloadPreStepData pre; Engine* e; GeneratorDistributionData out; ScintShared sh; real_type edep; size_type n;
+    __CPROVER_assume(n >= 1 && n <= 64);
+    MatScintSpectrumRecord* mats = malloc(n * sizeof(MatScintSpectrumRecord)); real_type* rs = malloc(n * sizeof(real_type)); __CPROVER_assume(mats != 0 && rs != 0);
+    sh.materials = mats; sh.resolution_scale = rs; sh.n_materials = n; sh.n_resolution_scale = n;
+    SO_offload(&p, &s, &pos, edep, &sh, &pre, e, &out);
+    VERIF_CANARY();
+}
+""")
+
+
 UNITS = [
     Unit("c20_axpy", build_axpy, "h_axpy", enforce="AXPY", unwind=4, timeout=120, backend=["sat"],
          must_have=[r"AXPY.postcondition", r"unwind"], checks=["--bounds-check", "--pointer-check"],
@@ -519,12 +826,31 @@ UNITS = [
          note="axpy<real_type,3>: y[i] <- fma(a, x[i], y[i]) for each of the three components with ONE scale factor (loop fully unwound, N = 3 is a constant: complete)"),
     Unit("c20_scint_gen_call", build_scint_call, "h_sg", enforce="SG_call", replace=["URD_sample", "REJ_sample", "AXPY", "NORMAL_sample", "EXP_sample"], loop_contracts=True, timeout=600, object_bits=10,
          backend=["sat", "cvc5", "z3"], must_have=[r"SG_call.postcondition", r"loop_invariant_step", r"from_spherical", r"wavelength > 0", r"AXPY.precondition"],
-         checks=["--bounds-check", "--pointer-check"],
+         checks=["--bounds-check", "--pointer-check"], replay={"src": "replay/c20.cc", "argv": lambda inputs, fl: [["scint_energy_battery"]]},
          assumptions=["component selection: any valid ScintRecord (Selector: c15_selector)", "polarisation lambda uninterpreted: perpendicularity NOT decided", "from_spherical value uninterpreted",
                       "NormalDistribution: any finite value; ExponentialDistribution: non-negative (assumed)", "IEEE sign / monotonicity lemmas for products, quotients and unit conversions (assumed)",
                       "termination of the rejection loops not decided"],
          note="ScintillationGenerator::operator(): energy = h c / lambda of a positive wavelength; isotropic direction argument in [-1,1]; position = pre + u*(post-pre), u in [0,1] (u = 1 for a neutral parent); "
               "time >= pre-step time on both time-profile branches"),
+    Unit("c20_scint_gen_ctor", build_scint_ctor, "h_sgc", enforce="SG_ctor", timeout=300, backend=["sat", "cvc5"],
+         must_have=[r"SG_ctor.postcondition", r"celer_expect"], checks=["--bounds-check", "--pointer-check"],
+         assumptions=["scintillation by particle type is unimplemented in the source (CELER_ASSERT_UNREACHABLE): excluded by precondition"],
+         note="ScintillationGenerator constructor: establishes the invariant the call unit requires -- cos(theta) sampled over [-1,1], phi over [0,2pi), delta_pos = post - pre, delta_speed = post - pre >= -pre, neutral flag"),
+    Unit("c20_dndx_call", build_dndx, "h_dn", enforce="DNDX_call", timeout=300, backend=["sat", "cvc5"],
+         must_have=[r"DNDX_call.postcondition", r"celer_expect"], checks=["--bounds-check", "--pointer-check"],
+         assumptions=["table lookups (refractive index, its inverse, the angle integral) uninterpreted; refractive-index values finite and >= 1; IEEE sign lemmas for products / quotients",
+                      "the value of dN/dx above threshold is NOT decided"],
+         note="CerenkovDndxCalculator::operator(): zero below the Cerenkov threshold (1/beta > n at the top of the table) and never negative"),
+    Unit("c20_cerenkov_offload", build_cerenkov_offload, "h_co", enforce="CO_offload", replace=["POISSON_sample"], timeout=300, backend=["sat", "cvc5"],
+         must_have=[r"CO_offload.postcondition", r"celer_expect"], checks=["--bounds-check", "--pointer-check"],
+         assumptions=["CerenkovDndxCalculator by its c20_dndx_call contract", "PoissonDistribution: any count (support: C15)"],
+         note="CerenkovOffload constructor + operator() (real bodies, composed): dN/dx taken at the MEAN speed; zero density => no photons requested and nothing sampled; a non-empty request carries the parent's "
+              "pre-step time, step length, charge, material, cached pre-step point and post-step point"),
+    Unit("c20_scint_offload", build_scint_offload, "h_so", enforce="SO_offload", replace=["POISSON_sample", "NORMAL2_sample"], timeout=300, backend=["sat", "cvc5"],
+         must_have=[r"SO_offload.postcondition", r"celer_expect", r"collection index"], checks=["--bounds-check", "--pointer-check"],
+         assumptions=["PoissonDistribution: any count; NormalDistribution: any finite value <= 4e18 (supports: C15)", "scintillation by particle type unimplemented in the source: excluded by precondition"],
+         note="ScintillationOffload constructor + operator() (real bodies, composed): no deposit or no scintillation data => no photons requested, nothing sampled; collection indices in range; a non-empty request "
+              "carries the parent's step data"),
     Unit("c20_cerenkov_gen_ctor", build_cerenkov_ctor, "h_cgc", enforce="CG_ctor", timeout=600, backend=["sat", "cvc5", "z3"],
          must_have=[r"CG_ctor.postcondition", r"celer_expect", r"celer_assert"], checks=["--bounds-check", "--pointer-check"],
          assumptions=["CerenkovDndxCalculator by its c20_dndx_call contract (finite, non-negative function of charge and speed)", "make_unit_vector uninterpreted",
